@@ -125,6 +125,30 @@ def gen_streams(rng, tier):
                 f[rng.randrange(len(f))] = rng.randrange(256)
                 parts.append(bytes(f))
         yield "mixed", b"".join(parts)
+    # 8. ONE reader, frames with a byte-identical body (kind, payload, checksum, end) under different headers: the XOR of the
+    #    four addressing / version bytes is the same, so the checksum does not tell them apart (C01.twin_frames_each_own_fields).
+    #    Each delivery must carry the header bytes of ITS OWN frame; other frames, noise, identical repeats and non-delivered
+    #    twins in between.
+    for label, s in twin_streams(rng, 120 if quick else 6000):
+        yield label, s
+
+
+def twin_streams(rng, n):
+    for _ in range(n):
+        kind = rng.choice(fg.FRAME_TYPES)
+        pl = fg.salted_payload(rng, rng.choice([0, 1, 1, 2, 5, 9, 30]))
+        mode, h, g = fg.twin_headers(rng, deliverable=rng.random() < 0.8)
+        a, b = fg.mk(kind, pl, *h), fg.mk(kind, pl, *g)
+        assert a[7:] == b[7:] and a[:7] != b[:7]
+        between = []
+        for _ in range(rng.choice([0, 0, 0, 1, 2])):
+            r = rng.random()
+            between.append(fg.rand_frame(rng, 12) if r < 0.4 else fg.mk(rng.choice([k for k in fg.FRAME_TYPES if k != kind]), pl, *h) if r < 0.7
+                           else a if r < 0.85 else bytes(x for x in (rng.randrange(256) for _ in range(rng.randint(1, 5))) if x != 0x68))
+        seq = [a] + between + [b]
+        if rng.random() < 0.5:
+            seq += [rng.choice([a, b, fg.mk(kind, pl, *fg.twin_headers(rng)[1])])]
+        yield "twins:" + mode, b"".join(seq)
 
 
 def chunkings(rng, n):
@@ -141,7 +165,9 @@ def run(ctx):
     pycode.check(res, random.Random(ctx["seed"] * 7919 + 77), ctx["tier"], ["frame", "reader"])
     res.rule = ("streams: every frame kind x boundary payload sizes; single-byte corruptions at every position; "
                 "XOR-preserving paired flips; the same delta on 2-4 positions of the whole frame incl. the end delimiter; XOR-zero / stored-zero checksum corruptions; truncations at every length; "
-                "noise (uniform, delimiter-dense, header-shaped); mixed streams; each under 3 chunkings; sessions on ONE reader object (direct / DummyProtocol.reader) "
+                "noise (uniform, delimiter-dense, header-shaped); mixed streams; TWINS: frames with a byte-identical body (kind, payload, checksum, end) under headers that "
+                "differ in two or four of recipient / sender / type / version with the same XOR, through ONE reader with other frames, repeats and noise between them "
+                "(each delivery judged on ITS OWN consumed bytes; every delivered object kept alive to the end: never the same object twice, fields unchanged by later reads); each under 3 chunkings; sessions on ONE reader object (direct / DummyProtocol.reader) "
                 "whose calls are abandoned by READER_TIMEOUT or cancellation after the delimiter, inside the header, at every position of a body, "
                 "then further bytes and calls -- incl. continuations that would form a frame when glued to what the abandoned call took. "
                 "distinct = distinct stream bytes; non-trivial = contains a start delimiter followed by >= 6 bytes")
@@ -157,7 +183,9 @@ def run(ctx):
     for label, s in cases:
         obs_by_chunk = []
         for cuts, lazy in chunkings(rng, len(s)):
-            obs_by_chunk.append((cuts if len(cuts) < 12 else "1-byte", lazy, reader.read_all(s, cuts, lazy)))
+            fresh = []
+            obs_by_chunk.append((cuts if len(cuts) < 12 else "1-byte", lazy, reader.read_all(s, cuts, lazy, fresh=fresh)))
+            report_fresh(res, dict(stream=s.hex(), cuts=list(cuts) if len(cuts) < 12 else "1-byte", lazy=lazy, label=label), fresh)
         impl.append(obs_by_chunk)
     answers = driver_batch("read " + hexs(s) for _, s in cases)
     judge(res, cases, impl)
@@ -188,6 +216,18 @@ def run(ctx):
     parts.finish()
     res.failures.sort(key=lambda f: (f["kind"] != "spec", len(str(f.get("input")))))
     return res
+
+
+def report_fresh(res, inp, fresh):
+    """every frame delivered by one reader is kept alive until the stream ends (reader.check_fresh)"""
+    for i, what, detail in fresh:
+        if what == "changed-after-delivery":
+            res.fail("spec", inp, "a delivered frame keeps the kind, addressing and payload it was delivered with",
+                     dict(call=i, **detail), "a frame handed to the caller changed its fields after LATER calls of read() on the same reader: "
+                     "it no longer carries the bytes it was read from (delivered in altered form)")
+        else:
+            res.fail("corr", inp, "every delivering call hands out a new frame object (the model's deliveries are independent values)",
+                     dict(call=i, **detail), "one reader handed out the SAME frame object for two deliveries")
 
 
 # ---------------------------------------------------------------------------------------------
@@ -245,9 +285,21 @@ def gen_sessions(rng, tier):
             later = body + bytes([fg.xor(hdr + body), 0x16])
             first = quiet(rng.choice([0, 2])) + hdr + quiet(rng.randrange(0, total - 7))
         yield "session:glue", [first, quiet(rng.choice([0, 0, 3])) + later + own_frame() + own_frame()]
+    # 4. twins (byte-identical body, different header with the same XOR) on one reader with abandoned calls in between: the
+    #    later twin arrives after a call that blocked with nothing taken, after the delimiter only, or inside a header
+    for _ in range(60 if quick else 3000):
+        kind = rng.choice(fg.FRAME_TYPES)
+        pl = fg.salted_payload(rng, rng.choice([0, 1, 2, 5, 9]))
+        mode, h, g = fg.twin_headers(rng)
+        a, b = fg.mk(kind, pl, *h), fg.mk(kind, pl, *g)
+        stall = rng.choice([b"", b"", b"\x68", a[:rng.randint(2, 7)], quiet(2)])
+        chunks = [quiet(rng.choice([0, 0, 2])) + a + stall, b + rng.choice([b"", a, b, own_frame()])]
+        if rng.random() < 0.4:
+            chunks.append(rng.choice([a, b]) + own_frame())
+        yield "session:twins", chunks
 
 
-def _session(chunks, modes, via_dummy):
+def _session(chunks, modes, via_dummy, fresh_out=None):
     """-> canonical events: reader.read_all tuples for completed calls, ("A", taken, how) for abandoned ones"""
     import asyncio
     import vloop
@@ -264,6 +316,7 @@ def _session(chunks, modes, via_dummy):
         else:
             fr = FrameReader(sr)
         out, fed, before = [], 0, 0
+        kept = []
 
         def taken():
             nonlocal before
@@ -280,6 +333,7 @@ def _session(chunks, modes, via_dummy):
                 else:
                     out.append(("D", int(f.frame_type), int(f.recipient), int(f.sender), int(f.econet_type), int(f.econet_version),
                                 hexs(f.message), taken()))
+                    kept.append((len(out) - 1, f, reader._frame_fields(f)))
             elif isinstance(exc, ProtocolError):
                 out.append(("E", taken()))
             elif isinstance(exc, OSError) and not isinstance(exc, asyncio.TimeoutError):
@@ -301,6 +355,7 @@ def _session(chunks, modes, via_dummy):
                         break
                 if t.done() and not t.cancelled():
                     if not record(t):
+                        reader.check_fresh(kept, fresh)
                         return out
                     continue
                 # the call waits for bytes that do not come: it is abandoned
@@ -318,9 +373,14 @@ def _session(chunks, modes, via_dummy):
             await asyncio.gather(t, return_exceptions=True)
             if not record(t):
                 break
+        reader.check_fresh(kept, fresh)
         return out
 
-    return vloop.run(main())
+    fresh = []
+    ev = vloop.run(main())
+    if fresh_out is not None:
+        fresh_out.extend(fresh)
+    return ev
 
 
 class _NullWriter:
@@ -343,7 +403,9 @@ def run_sessions(res, rng, tier, cases=None):
     for label, chunks in cases:
         modes = [rng.choice(["timeout", "cancel"]) for _ in chunks]
         via = rng.random() < 0.4
-        obs.append((modes, via, _session(chunks, modes, via)))
+        fresh = []
+        obs.append((modes, via, _session(chunks, modes, via, fresh)))
+        report_fresh(res, dict(session=[c.hex() for c in chunks], abandoned_by=modes, via="DummyProtocol.reader" if via else "FrameReader", label=label), fresh)
     answers = driver_batch("session " + "+".join(hexs(c) for c in chunks) for _, chunks in cases)
     judge_reqs, judge_at = [], []
     for (label, chunks), (modes, via, ev), ans in zip(cases, obs, answers):
@@ -468,7 +530,9 @@ def replay(ctx):
     cuts = f["input"].get("cuts") or ()
     if cuts == "1-byte":
         cuts = tuple(range(1, len(s)))
-    obs = reader.read_all(s, tuple(cuts), bool(f["input"].get("lazy")))
+    fresh = []
+    obs = reader.read_all(s, tuple(cuts), bool(f["input"].get("lazy")), fresh=fresh)
+    report_fresh(res, f["input"], fresh)
     ans = driver_batch(["read " + hexs(s)])[0]
     model = reader.canon_model(reader.parse_model(ans))
     ci = reader.canon_impl(obs)
